@@ -84,8 +84,10 @@ def read_cpp(text):
         if "DK3P_DI.particle_masses" in ln:
             for s in cand.findall(ln.split("=", 1)[1]):
                 events.append({"k": "use", "sym": s})
-        elif "new Lineshapes::" in ln or (events and lines[i - 1].rstrip().endswith(",") and "Lineshapes" not in ln and "SpinFactor" not in ln
-                                         and "mkvar" not in ln and "factor_list" not in ln and '"' not in ln):
+        elif "new Lineshapes::" in ln or "_SplineArr" in re.sub(r'"[^"]*"', "", ln) or (
+                events and lines[i - 1].rstrip().endswith(",") and "Lineshapes" not in ln and "SpinFactor" not in ln
+                and "mkvar" not in ln and "factor_list" not in ln and '"' not in ln):
+            # (the spline array of a GSpline lineshape stands on its continuation line, next to Lineshapes::spline_t)
             for s in cand.findall(re.sub(r'"[^"]*"', "", ln)):
                 if s.endswith(("_M", "_W", "_SplineArr")) or s in KM_SYMS:
                     events.append({"k": "use", "sym": s})
